@@ -68,7 +68,11 @@ Fixpoint first_dround_fail (f : dround -> option string) (rs : list dround) (i :
   end.
 
 Definition C16_prop_round (c : dcfg) (r : dround) : option string :=
-  orelse_s (C16_round c (d_cache r) (d_events r)) (queue_clause r).
+  orelse_s (C16_round c (d_cache r) (d_events r))
+    (orelse_s (match target_of c (d_cache r) with
+               | Some t => C16_request_when_changed c t (d_events r) (d_result r)
+               | None => None end)
+              (queue_clause r)).
 
 Definition C16_check (c : dcase) : verdict :=
   if negb (forallb round_in_domain (d_rounds c)) then SKIP "target-annotation-holds-embedded-json" else
@@ -108,6 +112,18 @@ Definition C17d_check (c : dcase) : verdict :=
   | Some w => PROPFAIL w
   | None => OK
   end.
+
+(* ---------- alias legs over the same records: C03 (what the hook is shown), C12 (worker step), C13 (hostile answers) ---------- *)
+Definition leg_check (f : dcfg -> dround -> option string) (c : dcase) : verdict :=
+  if negb (forallb round_in_domain (d_rounds c)) then SKIP "target-annotation-holds-embedded-json" else
+  match first_dround_fail (f (d_cfg c)) (d_rounds c) 0 with
+  | Some w => PROPFAIL w
+  | None => OK
+  end.
+
+Definition C03d_check := leg_check (fun c r => C03d_round c (d_cache r) (d_events r)).
+Definition C12d_check := leg_check (fun c r => C12d_round (dk_key (d_cache r)) (d_events r) (d_result r) (d_queue r)).
+Definition C13d_check := leg_check (fun c r => C13d_round (d_events r) (d_result r)).
 
 (* ---------- debugging aids (not used by the verdict) ---------- *)
 Definition model_calls (c : dcfg) (r : dround) : list string * sync_result :=
